@@ -250,6 +250,10 @@ func (r *Run) effects(f *types.Func) map[string]bool {
 			}
 			return out
 		}
+		if def.Obj != nil && onceOnly(def) {
+			memo[f] = out // a sync.Once initialiser establishes the initial state; it is not a change of it
+			return out
+		}
 		stack[f] = true
 		if r.writesReceiver(def) {
 			out["unclassified:"+funcName(f)] = true
